@@ -14,6 +14,7 @@ from vf import fits as FT
 from vf.gen import rng_for
 
 ID = "C05"
+TECHNIQUE = 'runtime monitoring: paired-run differential monitor on the real predict() (same weather and calendar, altered observed column), bit-exact on values and on which rows get a prediction'
 LEVEL = "exploration"
 CASE_TIMEOUT = 3000
 RULE = ("one fitted model per case (every family/profile; baselines of 365 days covering every calendar month and weekday, asserted by the generator) x "
